@@ -39,13 +39,13 @@ def workspaces(ck):
     rng = ck.rng
     quick = ck.tier == "quick"
     out = [({"/main.td": s}, "/main.td") for s in SEEDS]
-    for _ in range(250 if quick else 4000):
+    for _ in range(250 if quick else 20000):
         toks = gen.sentence(rng, budget=rng.choice([5, 7, 9]))
         if rng.random() < 0.4:
             toks = gen.mutate(rng, toks)
         pre = PRELUDE if rng.random() < 0.8 else ""
         out.append(({"/main.td": pre + gen.render(rng, toks, rng.choice(["spaced", "messy"]))}, "/main.td"))
-    for _ in range(60 if quick else 800):
+    for _ in range(60 if quick else 4000):
         a = gen.render(rng, gen.sentence(rng, budget=6), "spaced")
         b = gen.render(rng, gen.sentence(rng, budget=6), "spaced")
         c = gen.render(rng, gen.sentence(rng, budget=4), "spaced")
@@ -55,7 +55,7 @@ def workspaces(ck):
     frags = ["class A;", "class B : A;", "class A { int f = v; }", "defvar v = 1;", "defvar w = v;", "def d : A;", "def e : B { int g = v; }",
              "class B<int v> : A { int h = v; }", "defvar v = w;", "multiclass A { def x : B; }", "defm m : A;", "def d;", "class d : d;"]
     names = ["/main.td", "/sub.td", "/dir/c.td"]
-    for _ in range(200 if quick else 3000):
+    for _ in range(200 if quick else 15000):
         nfiles = rng.choice([1, 2, 2, 3])
         ws = {}
         for i in range(nfiles):
